@@ -4,8 +4,8 @@ B    ?= build
 CXX  ?= g++
 CLANGXX ?= clang++
 
-COMMON = -std=gnu++17 -march=native -DNDEBUG -fno-access-control -DPGM_INDEX_VERIF -I$(REPO)/include -I$(REPO)/c-interface -I. -w
-PROD   = $(COMMON) -O2 -D_OPENMP=201511
+COMMON = -std=gnu++17 -march=native -fno-access-control -DPGM_INDEX_VERIF -I$(REPO)/include -I$(REPO)/c-interface -I. -w
+PROD   = $(COMMON) -O2 -DNDEBUG -D_OPENMP=201511
 ASAN   = $(COMMON) -O1 -g -D_OPENMP=201511 -DVERIF_ASAN -fsanitize=address -fsanitize-recover=address -D_GLIBCXX_SANITIZE_VECTOR -fno-omit-frame-pointer
 
 # every object depends on the stamp, which scripts/stamp.sh touches whenever the content hash of the repo sources changes
